@@ -516,7 +516,7 @@ PROPS["C18"] = dict(
     gen=[("tables", "ServlinVerif/Gen/CodeTables.lean")],
     suites=["c18"],
     shards={"c18": 6},
-    lean_modules=["ServlinVerif.Props.C18", "ServlinVerif.Props.CodeTables"],
+    lean_modules=["ServlinVerif.Props.C18", "ServlinVerif.Props.CodeTables", "ServlinVerif.Props.C18World"],
     audit="Audit/C18.lean",
     rule="own process per shard (the logger is process-global): 600 (6000) scenarios of 1..3 phases, each phase installs a logger with a captured "
          "receiver (alive / already dropped) or none, then runs 1..8 threads concurrently, each a random program of 1..8 steps over {add thread "
@@ -601,7 +601,9 @@ ADD = {
     "C18": dict(
         rule="Handler results also Ok(get_body_and_reprocess) and Err carrying it; R phases: 280 (1200) rounds of set_global_logger racing the first logging call with no logger set (swept offsets): "
              "the installed logger must receive the next event and its guard must drop without panic.",
-        explanation="Props/CodeTables.lean: tagOrder_matches — the order in which log() delivers a probe list of tags is regenerated by execution and kernel-checked against the model's stable priority sort."),
+        explanation="Props/C18World.lean: the global logger state (none / installed / stdout default) and the per-thread tag lists as one transition system over every interleaving of any number of threads: "
+                    "C18_exactly_once (one outcome per logging call, nothing else), C18_current_sink (the sink current at the moment of the call), C18_thread_isolation (thread t's outcomes are unchanged when every "
+                    "tag operation of every other thread is removed from the history). Props/CodeTables.lean: tagOrder_matches — the order in which log() delivers a probe list of tags is regenerated by execution and kernel-checked against the model's stable priority sort."),
     "C20": dict(
         rule="Every constructor with an argument is executed on several arguments (plain, empty, with CR/LF, control bytes, 5000 bytes; one table row each). Suite c20w: requests the server answers with its own "
              "error response (malformed, HTTP/1.0, oversized head, bad cookie, bad length, chunked) and handler answers 500/503/599/404/panic/over-limit, alone and after an ordinary request, on the wire; "
